@@ -60,7 +60,8 @@ def _inline_methods(P, cls, names):
             sub = fn_eval(P, g, [ev.ev(a) for a in call.args], sym=ev.sym,
                           heap=ev.heap, inline=hook,
                           lens=getattr(ev, 'lens', None),
-                          iters=getattr(ev, 'iters', None))
+                          iters=getattr(ev, 'iters', None),
+                          choose=ev.choose)
             return sub.returned
         return None
     return hook
@@ -252,6 +253,17 @@ def _quadratic(ctx, res, f, F_of, what, rule):
             tg = s.targets[0]
             if isinstance(tg, ast.Name):
                 if isinstance(s.value, ast.Call) and \
+                        call_name(s.value) == 'where' and \
+                        len(s.value.args) == 3 and any(
+                            unparse(a_) in ('np.inf', 'np.nan')
+                            for a_ in s.value.args[1:]):
+                    # t = where(cond, inf, t): a root discarded for some rays
+                    # stays the root for the others
+                    keep = [a_ for a_ in s.value.args[1:]
+                            if unparse(a_) not in ('np.inf', 'np.nan')]
+                    if len(keep) == 1 and unparse(keep[0]) == tg.id:
+                        continue
+                if isinstance(s.value, ast.Call) and \
                         call_name(s.value) == 'where':
                     where = s.value
                 try:
@@ -301,6 +313,14 @@ def _quadratic(ctx, res, f, F_of, what, rule):
             for s in _flat(f.node.body):
                 if isinstance(s, ast.Assign) and len(s.targets) == 1 and \
                         isinstance(s.targets[0], ast.Name):
+                    if isinstance(s.value, ast.Call) and \
+                            call_name(s.value) == 'where' and \
+                            len(s.value.args) == 3 and any(
+                                unparse(a_) in ('np.inf', 'np.nan')
+                                for a_ in s.value.args[1:]) and any(
+                                unparse(a_) == s.targets[0].id
+                                for a_ in s.value.args[1:]):
+                        continue        # a root masked for some rays
                     try:
                         ev2.env[s.targets[0].id] = ev2.ev(s.value)
                     except Inconclusive:
@@ -518,7 +538,7 @@ def on_surface(ctx):
             'left unconverged when another ray of the batch has converged',
             construct='Newton stopping rule'))
     # returned distance = |intersection - start|
-    rets = [s for s in nr.node.body if isinstance(s, ast.Return)]
+    rets = [s for s in ast.walk(nr.node) if isinstance(s, ast.Return)]
     rsrc = unparse(rets[0].value) if rets else ''
     # the returned array is the norm itself or a masked copy of it
     # (np.where(converged, t, nan)): resolve one level of local names
@@ -533,8 +553,22 @@ def on_surface(ctx):
         rsrc = [unparse(a) for a in rets[0].value.args[1:]
                 if unparse(a) not in ('np.nan', 'np.inf')][0]
     rsrc = defs.get(rsrc, rsrc)
+    dirs = defs.get('ray_directions', '').replace(' ', '')
+    signed = rsrc.replace(' ', '') == \
+        'np.sum((intersections-position)*ray_directions,axis=1)' and \
+        dirs == 'np.column_stack((rays.L,rays.M,rays.N))'
     if 'norm(intersections - position' in rsrc and 'axis=1' in rsrc:
-        res.ok('returned distance = |intersection - start position|')
+        res.fail(ctx.finding(
+            'ON-SURFACE', nr, rets[0] if rets else nr.node,
+            'the distance to an iterated surface is returned as the unsigned '
+            'norm |intersection - start|: when the surface lies behind the '
+            'start point (stop on a corrector plate, thickness 0) the ray is '
+            'moved forward to the mirror image of the intersection, a finite '
+            'point off the surface (Schmidt plate: up to 27 um; flat-base '
+            'freeform: 0.147 mm)', construct='Newton unsigned distance'))
+    elif signed:
+        res.ok('returned distance = (intersection - start) . direction, the '
+               'signed length along the unit ray direction')
     else:
         res.fail(ctx.finding('ON-SURFACE', nr, rets[0] if rets else nr.node,
                              'returned distance is not the length from the '
@@ -578,10 +612,12 @@ def normal_gradient(ctx):
             if sn.name == 'surface_normal':
                 heap = {'rays.x': X, 'rays.y': Y}
                 evn = fn_eval(P, sn, None, sym=sym, heap=heap, lens=lens,
-                              iters=iters, inline=hook)
+                              iters=iters, inline=hook,
+                              choose=lambda t, e: False)
             else:
+                # interior point of the domain: edge masks (root == 0) False
                 evn = fn_eval(P, sn, [X, Y], sym=sym, lens=lens, iters=iters,
-                              inline=hook)
+                              inline=hook, choose=lambda t, e: False)
             nrm = evn.returned
         except Inconclusive as e:
             raise AnalysisError(f'NORMAL-GRADIENT {cn}: outside fragment: {e}')
@@ -1059,8 +1095,35 @@ def nonfinite(ctx):
                  'no nan-masking operation sits on the flow from the '
                  'discriminant / radicand to the returned values')
     masks = 0
-    for q in ('Plane.distance', 'StandardGeometry.distance',
-              'NewtonRaphsonGeometry._intersection_sphere'):
+    # iterated surfaces: the base sphere only supplies the start point; the
+    # sign test belongs to the returned distance (nan when the intersection
+    # lies behind the ray)
+    nrd = P.func('NewtonRaphsonGeometry.distance')
+    res.saw(nrd)
+    okm = False
+    for r_ in ast.walk(nrd.node):
+        if isinstance(r_, ast.Return) and isinstance(r_.value, ast.Call) and \
+                unparse(r_.value.func) == 'np.where' and \
+                len(r_.value.args) == 3 and \
+                unparse(r_.value.args[2]) in ('np.nan', 'np.inf'):
+            for c_ in ast.walk(r_.value.args[0]):
+                if isinstance(c_, ast.Compare) and unparse(c_.left) == \
+                        unparse(r_.value.args[1]) and isinstance(
+                            c_.ops[0], (ast.Gt, ast.GtE)):
+                    v_ = const_of(c_.comparators[0])
+                    if v_ is not None and -1e-6 <= float(v_) <= 0:
+                        okm = True
+    if okm:
+        masks += 1
+        res.ok('NewtonRaphsonGeometry.distance: t behind the ray (beyond a '
+               'rounding tolerance) is returned as nan')
+    else:
+        res.fail(ctx.finding(
+            'NONFINITE', nrd, nrd.node,
+            'NewtonRaphsonGeometry.distance does not report an intersection '
+            'behind the ray as non-finite',
+            construct='NewtonRaphsonGeometry.distance mask t'))
+    for q in ('Plane.distance', 'StandardGeometry.distance'):
         f = P.func(q)
         res.saw(f)
         found = []
@@ -1361,6 +1424,17 @@ def newton_unconverged(ctx):
                                                             ast.Not)):
             p = _polarity(e.operand)
             return -p if p else None
+        if isinstance(e, ast.BinOp) and isinstance(e.op, ast.BitAnd):
+            # converged & (another requirement): still 'converged' rays only
+            a_, b_ = _polarity(e.left), _polarity(e.right)
+            if 1 in (a_, b_) and -1 not in (a_, b_):
+                return 1
+            return None
+        if isinstance(e, ast.BoolOp) and isinstance(e.op, ast.And):
+            ps = [_polarity(v) for v in e.values]
+            if 1 in ps and -1 not in ps:
+                return 1
+            return None
         if isinstance(e, ast.Compare) and len(e.ops) == 1:
             l, r = e.left, e.comparators[0]
             lt = 'tol' in unparse(l)
@@ -1604,5 +1678,110 @@ META['declined'] = [
     for _d in META['declined']]
 
 
-RULES = [lossless_without_k, quadratic_stable, flat_base, newton_unconverged, c01_media_chain, no_stale, records, scatter_unit, snell_law, reflect_law, align_normal, on_surface, normal_gradient,
+def conic_branch(ctx):
+    """'each valid ray's recorded intersection point lies on that surface's
+    prescribed shape': the sag z = r^2 / (R (1 + sqrt(1 - (1+k) r^2/R^2)))
+    describes one branch of the conic (the near half of an ellipsoid, the
+    near sheet of a hyperboloid), on which 1 - (1+k) z / R >= 0.  Both roots
+    of the quadratic must be tested against it before one is selected."""
+    P = ctx.P
+    res = Result('CONIC-BRANCH', 'StandardGeometry.distance discards roots '
+                 'off the branch of the conic that the sag describes, before '
+                 'selecting the root')
+    f = P.func('StandardGeometry.distance')
+    res.saw(f)
+    sym = Sym()
+    want_of = {}
+    found = {}
+    sel_line = None
+    for st in ast.walk(f.node):
+        if isinstance(st, ast.Assign) and isinstance(st.targets[0], ast.Name) \
+                and st.targets[0].id == 't' and isinstance(st.value, ast.Call) \
+                and unparse(st.value.func) == 'np.where':
+            sel_line = st.lineno
+    for st in ast.walk(f.node):
+        if not (isinstance(st, ast.Assign) and isinstance(
+                st.targets[0], ast.Name) and st.targets[0].id in ('t1', 't2')
+                and isinstance(st.value, ast.Call) and
+                unparse(st.value.func) == 'np.where' and
+                len(st.value.args) == 3):
+            continue
+        nm = st.targets[0].id
+        cond, a1, a2 = st.value.args
+        if not (unparse(a1) in ('np.inf', 'np.nan') and unparse(a2) == nm):
+            continue
+        if not (isinstance(cond, ast.Compare) and
+                isinstance(cond.ops[0], (ast.Lt, ast.LtE))):
+            continue
+        lim = const_of(cond.comparators[0])
+        if lim is None or not (-1e-6 <= float(lim) <= 0):
+            continue
+        ev = Ev(sym=sym)
+        z = A('Z' + nm[1])
+        ev.env['z' + nm[1]] = z
+        try:
+            lhs = ev.ev(cond.left)
+        except Inconclusive:
+            continue
+        want = ONE - (ONE + A('self.k')) * z / A('self.radius')
+        if rat_eq(lhs, want) and (sel_line is None or st.lineno < sel_line):
+            found[nm] = st
+    if set(found) == {'t1', 't2'}:
+        res.ok('t1, t2 with 1 - (1 + k) z / R < 0 are set to inf before the '
+               'root nearest the vertex plane is taken')
+    else:
+        res.fail(ctx.finding(
+            'CONIC-BRANCH', f, f.node,
+            'the root with the smaller |z| is taken without a test that it '
+            'lies on the branch the sag describes: a steep ray on an '
+            'ellipsoid / hyperboloid is recorded on the far half / second '
+            'sheet (hyperboloid R = 10, k = -5, 45 deg ray: (11.31, -8.69) '
+            'instead of (35.35, 15.35); UVReflectingMicroscope: 48 of 217 '
+            'axial rays 4.07 mm off surface 7)',
+            construct='root selection ignores the conic branch'))
+    return res
+
+
+def chebyshev_edge(ctx):
+    """the Chebyshev surface admits |x| = norm_x (the domain check is
+    inclusive): T_n'(x) = n sin(n acos x) / sqrt(1 - x^2) is 0/0 there, the
+    limit is (+-1)^(n+1) n^2"""
+    from ..match import find
+    P = ctx.P
+    res = Result('CHEBYSHEV-EDGE', 'the Chebyshev derivative is defined on '
+                 'the closed domain the validity check admits')
+    f = P.func('ChebyshevPolynomialGeometry._chebyshev_derivative')
+    v = P.func('ChebyshevPolynomialGeometry._validate_inputs')
+    res.saw(f), res.saw(v)
+    inclusive = not any(isinstance(c, ast.Compare) and isinstance(
+        c.ops[0], (ast.GtE, ast.LtE)) and '1' in unparse(c)
+        for c in ast.walk(v.node))
+    divides = any(isinstance(b, ast.BinOp) and isinstance(b.op, ast.Div) and
+                  'sqrt' in unparse(b.right) or
+                  (isinstance(b, ast.BinOp) and isinstance(b.op, ast.Div) and
+                   isinstance(b.right, ast.Name))
+                  for b in ast.walk(f.node))
+    edge = [c for c in ast.walk(f.node) if isinstance(c, ast.Call) and
+            unparse(c.func) == 'np.where' and len(c.args) == 3 and
+            isinstance(c.args[0], ast.Compare)]
+    ok_edge = False
+    for c in edge:
+        lim = unparse(c.args[1]).replace(' ', '')
+        if lim in ('np.sign(x)**(n+1)*n**2', 'n**2*np.sign(x)**(n+1)',
+                   'x**(n+1)*n**2', 'n**2*x**(n+1)'):
+            ok_edge = True
+    if not inclusive or not divides or ok_edge:
+        res.ok("T_n'(+-1) = (+-1)^(n+1) n^2 at the edge of the domain")
+    else:
+        res.fail(ctx.finding(
+            'CHEBYSHEV-EDGE', f, f.node,
+            "_chebyshev_derivative divides by sqrt(1 - x^2), which is 0 at "
+            "|x| = 1 - points the domain check admits (Py = +-1 ends of a "
+            "fan, marginal rays when the normalisation radius equals the "
+            "semi-aperture): the normal and the outgoing direction are nan",
+            construct='Chebyshev derivative at the domain edge'))
+    return res
+
+
+RULES = [conic_branch, chebyshev_edge, lossless_without_k, quadratic_stable, flat_base, newton_unconverged, c01_media_chain, no_stale, records, scatter_unit, snell_law, reflect_law, align_normal, on_surface, normal_gradient,
          frames, trace_order, same_medium, nonfinite]
